@@ -480,3 +480,25 @@ from vc.symex import Ptr  # noqa: E402
 for _cls, _info in (('ace_time::BasicZoneProcessor', 'ace_time::basic::ZoneInfo'), ('ace_time::ExtendedZoneProcessor', 'ace_time::extended::ZoneInfo')):
     contract(_cls + '::printTo(Print&) const', props=['C15'], requires=lambda c, _cls=_cls: [c.old.field(c.this, _cls, 'mZoneInfo.mZoneInfo') != 0],
              ensures=_proc_print_post(_cls, _info, 'name'), assigns=lambda c: [])
+
+
+# ---- ZonedDateTime::forDateString: the offset date-time parsed by OffsetDateTime::forDateString, in the manual zone of its offset ----
+def _zdt_parse_post(c):
+    res, s = c.args
+    calls = [e for e in c.log if e[0] == 'call' and e[1].startswith('ace_time::OffsetDateTime::forDateString')]
+    if not calls:
+        return [('parses-through-OffsetDateTime-forDateString', z3.BoolVal(False))]
+    rv = calls[-1][3]                       # the OffsetDateTime value (coerced i64: six date-time bytes, two offset bytes)
+    f, off = zoned.zdt_odt(c.new, res)
+    from . import timezone as _tz
+    tz_off, _ = c.mod.field(zoned.ZDT, 'mTimeZone')
+    tzf = _tz.tz_fields(c.new, c.ex.ptr_add(res, tz_off))
+    return [('same-string', c.ex.ptr_to_bv(calls[-1][2][0]) == c.ex.ptr_to_bv(s)),
+            ('date-time-fields-of-the-parsed-value', z3.And(*[f[k] == byte(rv, k) for k in range(6)])),
+            ('offset-of-the-parsed-value', off == z3.Extract(63, 48, rv)),
+            ('zone-is-the-manual-zone-of-that-offset', z3.And(tzf['type'] == _tz.K_MANUAL, tzf['std'] == z3.Extract(63, 48, rv), tzf['dst'] == 0))]
+
+
+contract('ace_time::ZonedDateTime::forDateString(char const*)', props=['C15'],
+         requires=lambda c: [c.ex.ptr_to_bv(c.args[1]) != 0, z3.ULE(c.ex.ptr_to_bv(c.args[1]), z3.BitVecVal((1 << 64) - 200, 64))], ensures=_zdt_parse_post,
+         assigns=lambda c: [(c.args[0], c.mod.size_of(c.mod.types['class.ace_time::ZonedDateTime']))])
